@@ -142,7 +142,7 @@ func C02() *engine.Check {
 	return &engine.Check{
 		Property: "C02",
 		Level:    "model_checking",
-		Subs:     []*engine.Sub{c02Sub("command-attenuation", "sound", 4, 6)},
+		Subs:     []*engine.Sub{c02Sub("command-attenuation", "sound", 4, 6), longChainSub("C02")},
 		Assumptions: []string{
 			"principals are aligned correctly, policies empty, no time bounds: only the command rule can fire",
 			"reference cover relation = segment-prefix order (refmodel.CmdCovers), independent of Command.Covers",
